@@ -272,6 +272,7 @@ func runCase(t *testing.T, tr *hx.Trace, id int, r *rand.Rand, script []string) 
 		var header string
 		keysA, keysB := "sil.nfl", "sil.nfl"
 		npeers := 2
+		failFirst := false
 		if script != nil {
 			header = script[0]
 			for _, f := range strings.Fields(header) {
@@ -289,13 +290,30 @@ func runCase(t *testing.T, tr *hx.Trace, id int, r *rand.Rand, script []string) 
 			ks := []string{"sil.nfl", "sil.nfl", "sil.nfl", "sil", "nfl", "nfl.sil.xtra"}
 			keysA, keysB = hx.Pick(r, ks), hx.Pick(r, ks)
 			npeers = r.IntN(3)
+			if npeers >= 1 && r.IntN(3) == 0 {
+				// one more member that is down but still listed: the reliable send to it fails; it is the first one tried
+				npeers++
+				failFirst = true
+			}
 			header = fmt.Sprintf("case %d keysA=%s keysB=%s peers=%d", id, keysA, keysB, npeers)
+			if failFirst {
+				header += " failfirst=1"
+			}
 		}
 		tr.Linef("%s", header)
 		w := &world{reg: prometheus.NewRegistry(), stopc: make(chan struct{})}
 		w.nodes[0] = newNode(hx.Split(keysA, "."))
 		w.nodes[1] = newNode(hx.Split(keysB, "."))
+		if strings.Contains(header, " failfirst=1") {
+			failFirst = true
+		}
+		if failFirst {
+			w.peers = append(w.peers, &memberlist.Node{Name: "down"})
+		}
 		for i := range npeers {
+			if failFirst && i == npeers-1 {
+				break
+			}
 			w.peers = append(w.peers, &memberlist.Node{Name: strconv.Itoa(i)})
 		}
 		send := func(b []byte) {
@@ -310,6 +328,9 @@ func runCase(t *testing.T, tr *hx.Trace, id int, r *rand.Rand, script []string) 
 			w.mu.Unlock()
 			if held {
 				<-rel
+			}
+			if n.Name == "down" {
+				return errors.New("member is down")
 			}
 			if n.Name == "0" {
 				w.mu.Lock()
